@@ -48,6 +48,10 @@ def r1(ctx, F):
             good = rv[0] == 'call' and rv[1].get('name') == 'nth' and rv[1].get('impl_adt') == adt and len(rv[2]) == 3 and \
                 as_param_path(rv[2][0]) == (1, ()) and as_param_path(rv[2][1]) == (2, ()) and prov.const_val(rv[2][2]) == const
             ncalls = sum(1 for _ in f.calls())
+            if not (good and ncalls == 1) and adt == GP and arms.arm_return_values(f)[1]:
+                # the wrapper may also dispatch straight to its payload's next / last (each of which is nth(0) / nth(usize::MAX), judged above)
+                if wrapper_arms(ctx, F, 'C15-R1', short, name, f, gp_adt) == len(MODES):
+                    continue
             ctx.require(good and ncalls == 1, 'C15-R1', '%s::%s' % (short, name),
                         '%s(state) = self.nth(state, %s)' % (name, 'usize::MAX' if const != '0' else '0'), f.where(),
                         bad='%s::%s is `%s`, expected exactly self.nth(state, %s)' % (short, name, prov.show(rv, maxdepth=3),
@@ -77,6 +81,42 @@ def find_payload_call(v, adt_of_mode, method, variant):
     return None
 
 
+def wrapper_arms(ctx, F, rule, short, name, f, payload_adt):
+    """every variant arm of the enum wrapper method calls the same-named method of its own payload with the parameters passed through
+    and re-wraps in its own variant; returns the number of arms judged"""
+    narms = 0
+    cond, vals = arms.arm_return_values(f)
+    if not vals:
+        ctx.violation(rule, '%s::%s:shape' % (short, name), 'no single match on the variant', f.where())
+        return 0
+    for label, val in vals.items():
+        for variant in label.split('|'):
+            mode = variant.lower()
+            if mode not in MODES:
+                continue
+            narms += 1
+            key = '%s::%s:%s' % (short, name, variant)
+            if val is None:
+                ctx.violation(rule, key, 'arm assigns no value', f.where())
+                continue
+            call = find_payload_call(val, payload_adt(mode), name, variant)
+            if call is None:
+                ctx.violation(rule, key, 'arm %s of %s::%s does not call `%s` on its payload: %s' % (
+                    variant, short, name, name, prov.show(val, maxdepth=4)), f.where())
+                continue
+            p = call[1].get('path') or ''
+            own = (CAP[mode] + 'Gradual') in p
+            args_ok = all(as_param_path(a) == (i + 2, ()) for i, a in enumerate(call[2][1:]))
+            # re-wrapping constructor (if any) must be the same variant
+            wraps = [x for x in prov.walk(val, limit=500) if x[0] == 'const' and 'fn' in x[1] and x[1]['fn'].get('ctor')]
+            wrap_ok = all(w[1]['fn']['path'].endswith('::' + variant) for w in wraps)
+            ctx.require(own and args_ok and wrap_ok, rule, key, '%s arm: payload.%s(params)%s' % (
+                variant, name, ' re-wrapped as ' + variant if wraps else ''), f.where(),
+                bad='arm %s of %s::%s: callee %s, args passed through=%s, wrapper(s) %s' % (
+                    variant, short, name, p, args_ok, [w[1]['fn']['path'] for w in wraps]))
+    return narms
+
+
 def r2(ctx, F):
     narms = 0
     specs = []
@@ -92,35 +132,7 @@ def r2(ctx, F):
             ctx.violation('C15-R2', 'anchor-missing:%s::%s' % (short, name), 'method not found')
             continue
         ctx.saw(f)
-        cond, vals = arms.arm_return_values(f)
-        if not vals:
-            ctx.violation('C15-R2', '%s::%s:shape' % (short, name), 'no single match on the variant', f.where())
-            continue
-        for label, val in vals.items():
-            for variant in label.split('|'):
-                mode = variant.lower()
-                if mode not in MODES:
-                    continue
-                narms += 1
-                key = '%s::%s:%s' % (short, name, variant)
-                if val is None:
-                    ctx.violation('C15-R2', key, 'arm assigns no value', f.where())
-                    continue
-                call = find_payload_call(val, payload_adt(mode), name, variant)
-                if call is None:
-                    ctx.violation('C15-R2', key, 'arm %s of %s::%s does not call `%s` on its payload: %s' % (
-                        variant, short, name, name, prov.show(val, maxdepth=4)), f.where())
-                    continue
-                p = call[1].get('path') or ''
-                own = (CAP[mode] + 'Gradual') in p
-                args_ok = all(as_param_path(a) == (i + 2, ()) for i, a in enumerate(call[2][1:]))
-                # re-wrapping constructor (if any) must be the same variant
-                wraps = [x for x in prov.walk(val, limit=500) if x[0] == 'const' and 'fn' in x[1] and x[1]['fn'].get('ctor')]
-                wrap_ok = all(w[1]['fn']['path'].endswith('::' + variant) for w in wraps)
-                ctx.require(own and args_ok and wrap_ok, 'C15-R2', key, '%s arm: payload.%s(params)%s' % (
-                    variant, name, ' re-wrapped as ' + variant if wraps else ''), f.where(),
-                    bad='arm %s of %s::%s: callee %s, args passed through=%s, wrapper(s) %s' % (
-                        variant, short, name, p, args_ok, [w[1]['fn']['path'] for w in wraps]))
+        narms += wrapper_arms(ctx, F, 'C15-R2', short, name, f, payload_adt)
     ctx.floor('C15-R2', narms, 24, 'enum wrapper arms')
 
 
